@@ -212,5 +212,6 @@ func init() {
 		}
 		arithmeticFoundations(c)
 		groupFoundations(c, true)
+		readFullRule(c)
 	}
 }
